@@ -197,6 +197,41 @@ class P(FlowFidelity):
         self.expect[line] = exp
         return line
 
+    def big_template_set(self, g, rng, n):
+        """ONE template set of n records in which one id is defined TWICE (first one way, later another way): the later definition
+        is the one in force, however many records the set has and wherever the two stand"""
+        orc = Oracle(self.proto, g.model)
+        a = rand_addr(rng)
+        toks, exp = [], []
+        i, j = sorted(rng.sample(range(n), 2))
+        ids = list(range(256, 256 + n))
+        ids[j] = ids[i]
+        tps = []
+        for k, tid in enumerate(ids):
+            nf = rng.choice([1, 2, 3]) if k != j else 4
+            tps.append(Tpl(tid, [], [(rng.choice([1, 2, 8, 12, 7, 11, 4, 10, 14]), 0, None) for _ in range(nf)]))
+        for t in tps:
+            t.fields = [(e, p_, {1: 8, 2: 8, 8: 4, 12: 4, 7: 2, 11: 2, 4: 1, 10: 4, 14: 4}[e]) for e, p_, _ in t.fields]
+        if g.min_rec_len(tps[i]) <= 4:
+            tps[i].fields.append((1, 0, 8))
+
+        def msg(sets, abstract):
+            p = g.enc_msg(sets)
+            toks.extend([hx(a), hx(p)])
+            recs, nf = orc.expected_sets(a, abstract)
+            exp.append({"recs": recs, "nf": nf, "header": header_of(self.proto, p), "go_rule": recs})
+        msg([g.enc_set(g.tpl_set_id(False), b"".join(g.enc_tpl(t, False) for t in tps))], [("tpl", [(t, False) for t in tps])])
+        s1, ab1 = self.data_set(g, rng, tps[j])
+        others = [t for k, t in enumerate(tps) if k not in (i, j) and g.min_rec_len(t) > 4][:2]
+        sets, abstract = [s1], [ab1]
+        for t in others:
+            s_, ab = self.data_set(g, rng, t)
+            sets.append(s_); abstract.append(ab)
+        msg(sets, abstract)
+        line = self.cmd + " " + " ".join(toks)
+        self.expect[line] = exp
+        return line
+
     def cases(self, tier, rng, budget):
         self.collisions = [find_collision(rng, 4) for _ in range(3)] + [find_collision(rng, 16)]
         out = []
@@ -205,6 +240,7 @@ class P(FlowFidelity):
             self.cmd = "ipfixh" if proto == "ipfix" else "nf9h"
             g = Gen(proto, go_model(), rng)
             out.append(self.crowded_shard(g, rng))
+            out += [self.big_template_set(g, rng, n) for n in (5, 12, 13, 14, 16, 20, 33, 60) for _ in range(2)]
             out += [self.gen_sandwich(g, rng) if i % 8 == 7 else self.gen_case(g, rng) for i in range(budget // 2)]
         return out
 
